@@ -680,7 +680,11 @@ class ImageBatch(DataTensor):
             size = grids[0].size()
             data = U.grid_resize(self, size, mode=mode, align_corners=align_corners)
         else:
+            # Normalized coordinates of the finest level grid points with respect to the cube of the input image grid
+            axes = Axes.from_align_corners(align_corners)
+            grid = self._grid[0].align_corners(align_corners)
             points = grids[0].coords(device=self.device)
+            points = grid_transform_points(points, grids[0], axes, grid, axes, decimals=None)
             data = U.grid_sample(self, points, mode=mode, align_corners=align_corners)
         # Construct image pyramid by repeated downsampling
         pyramid = {}
